@@ -34,7 +34,6 @@ def TokenClaimsGo.toClaims (t : TokenClaimsGo) : Claims :=
     authTime := t.AuthTime, nonce := t.Nonce, acr := t.AuthenticationContextClassReference, clientID := t.ClientID }
 
 namespace Go
-def append {α : Type} (l : List α) (x : α) : List α := l ++ [x]
 end Go
 
 namespace Hand
